@@ -1040,7 +1040,13 @@ class BackendZ3(Backend):
 
         if isinstance(expr_raw, z3.BoolRef):
             boolref_tactics = self._boolref_tactics
-            simplified = boolref_tactics(expr_raw).as_expr()
+            try:
+                simplified = boolref_tactics(expr_raw).as_expr()
+            except z3.Z3Exception:
+                # a tactic gave up on this term (Z3 4.13 fails with "invalid extract application" on a float made from
+                # a one-bit fp.to_ubv, for instance): the plain simplifier still does its part
+                log.debug("Z3 tactics failed, falling back to z3.simplify", exc_info=True)
+                simplified = z3.simplify(expr_raw)
         else:
             simplified = z3.simplify(expr_raw)
 
